@@ -1,6 +1,10 @@
-"""Scenario case files shared by several checks (built on lib/minicab and, when present, gen/vgen)."""
-import zlib
+"""Scenario case files shared by the checks: small hand-built cabinets (lib/minicab) and
+well-formed archives of every format from the generator package /verif/gen/vgen."""
+import os, sys, zlib
 from lib import common as C, minicab
+from lib.util import digest
+
+sys.path.insert(0, os.path.join(C.VERIF, "gen"))
 
 def mszip_block(data):
     co = zlib.compressobj(9, zlib.DEFLATED, -15)
@@ -29,3 +33,74 @@ def small_all_formats(rng, n):
             lines.append(f"extract i0 h0 {i} o{i}")
         lines += ["close i0 h0", "destroy i0"]
         yield lines, dict(family="cab.small", members=len(members))
+
+# ------------------------------------------------------------------ vgen-based scenarios
+
+def vgen_case(rng, kind, size="small", **kw):
+    import vgen
+    mod = __import__("vgen." + kind, fromlist=["random_case"])
+    return mod.random_case(rng, size, **kw)
+
+def file_lines(case):
+    return [f"file {n} {b.hex() if b else '-'}" for n, b in case["files"].items()]
+
+def cab_ops(case, params=(), join="append-ltr", extract_order=None, close=True):
+    """ops for a vgen cab case: open every part, join them, extract every member of the joined
+    list (by index), close, destroy.  Returns (lines, nfiles)"""
+    order = case["meta"]["order"]
+    lines = ["new cab"] + [f"param i0 {k} {v}" for k, v in params]
+    if case["meta"].get("open") == "search":
+        lines += [f"search i0 {order[0]}"]
+        # members carry 'cab' = index of the embedded cabinet; handles h0.. in chain order
+        idx = {}
+        for m in case["members"]:
+            k = m.get("cab", 0); j = idx.get(k, 0); idx[k] = j + 1
+            lines.append(f"extract i0 h{k} {j} o{k}_{j}")
+        if close: lines += ["close i0 h0", "destroy i0"]
+        return lines, len(case["members"])
+    lines += [f"open i0 {n}" for n in order]
+    for i in range(len(order) - 1):
+        lines.append(f"append i0 h{i} h{i + 1}")
+    n = len(case["members"])
+    for j in (extract_order if extract_order is not None else range(n)):
+        lines.append(f"extract i0 h0 {j} o{j}")
+    if close: lines += ["close i0 h0", "destroy i0"]
+    return lines, n
+
+def generic_ops(case, params=(), close=True):
+    kind = case["kind"]
+    if kind == "cab":
+        return cab_ops(case, params, close=close)[0]
+    order = case["meta"]["order"]
+    if kind == "chm":
+        n = case["meta"].get("nfiles", len(case["members"]))
+        lines = ["new chm", f"open i0 {order[0]}"]
+        nlist = len(case["meta"]["expect"]["files"]) if "expect" in case["meta"] and "files" in case["meta"]["expect"] else len(case["members"])
+        lines += [f"extract i0 h0 {j} o{j}" for j in range(nlist)]
+        if close: lines += ["close i0 h0", "destroy i0"]
+        return lines
+    if kind in ("szdd", "kwaj"):
+        lines = [f"new {kind}", f"open i0 {order[0]}", "extract i0 h0 - out"]
+        if close: lines += ["close i0 h0", "destroy i0"]
+        return lines
+    if kind == "oab":
+        lines = ["new oab"] + [f"param i0 {k} {v}" for k, v in params if k == "DECOMPBUF"]
+        if case["meta"].get("open") == "incremental" or len(order) > 1:
+            lines.append(f"decompressinc i0 {order[0]} {order[1]} out")
+        else:
+            lines.append(f"decompress i0 {order[0]} out")
+        if close: lines.append("destroy i0")
+        return lines
+    raise ValueError(kind)
+
+def expect_by_name(case):
+    """name(hex) -> [digest,...] of the members (names may repeat)"""
+    d = {}
+    for m in case["members"]:
+        d.setdefault(m["name"].hex() if m["name"] else "=", []).append(digest(m["data"]))
+    return d
+
+def short_meta(case):
+    m = case["meta"]
+    out = {k: v for k, v in m.items() if k not in ("expect", "sub", "blocks") and not isinstance(v, (bytes,))}
+    return out
